@@ -10,12 +10,13 @@ TITLE = 'Receivers resynchronise after noise and never go deaf'
 QUICK_S = 40
 THOROUGH_S = 600
 RULE = ('a garbage phase (random bytes, corrupted or truncated valid frames, frames for foreign units, lone delimiter '
-        'characters; <= 600 bytes) on the RTU/ASCII/binary framers, then faults stop and 25-40 valid frames follow, one per '
+        'characters, checksum-valid frames whose PDU the decoder cannot digest; <= 600 bytes) on the RTU/ASCII/binary framers, then faults stop and 25-40 valid frames follow, one per '
         'read or 2-3 per read. Oracle (bounded liveness): with g = offset where the garbage ends and B = 2 x maximum frame '
         'size of the framing, every valid frame that starts at offset >= g+B is delivered exactly once and in order, and the '
         'backlog len(framer._buffer) stays <= B + largest read while valid frames keep arriving. Frames inside the grace '
-        'window carry no obligation. Non-trivial = non-empty garbage; distinct = distinct event log')
-ASSUMPTIONS = ['the receiving loop applies the policy of the real serial handler when processIncomingPacket raises: resetFrame() and carry on',
+        'window carry no obligation. The receiving loop either resets the framer when the receive call raises or ignores the '
+        'exception (both generated). Non-trivial = non-empty garbage; distinct = distinct event log')
+ASSUMPTIONS = ['when processIncomingPacket raises, the receiving loop either calls resetFrame() and carries on (the policy of the sync serial handler) or does nothing at all (Twisted protocols, direct users): both policies are generated',
                'no timing signal (3.5-character silence) is modelled: pymodbus does not use it on receive either']
 STUBS = rc.STUBS
 FRAMINGS = ['rtu', 'ascii', 'binary']
@@ -37,6 +38,13 @@ def garbage_piece(rng, kind, framing, decoder):
         return fr[:rng.randrange(1, len(fr))]
     if kind == 'foreign':
         return codec.frame(framing, rng.choice([2, 99, 200]), p)
+    if kind == 'undecodable':
+        # a frame with a VALID checksum (and, on RTU, the length its own header announces) for the receiver's
+        # own unit whose PDU the decoder cannot digest: sub-request / counters cut short inside the PDU
+        pool = ([bytes([0x15, 3, 6, 0, 1]), bytes([0x14, 2, 6, 0]), bytes([0x15, 1, 6]), bytes([0x2B, 0x0E])]
+                if decoder == 'server' else
+                [bytes([0x0C, 2, 0, 0]), bytes([0x0C, 1, 0]), bytes([0x11, 0]), bytes([0x15, 3, 6, 0, 1]), bytes([0x03, 1, 7])])
+        return codec.frame(framing, 17, rng.choice(pool))
     if kind == 'delims':
         return bytes(rng.choice([0x3A, 0x7B, 0x7D, 0x0D, 0x0A]) for _ in range(rng.randint(1, 4)))
     raise ValueError(kind)
@@ -45,7 +53,7 @@ def garbage_piece(rng, kind, framing, decoder):
 def generate(rng, tier, index):
     framing = rng.choice(FRAMINGS)
     decoder = rng.choice(['server', 'client'])
-    kinds = rng.sample(['random', 'badcheck', 'truncated', 'foreign', 'delims'], rng.randint(1, 3))
+    kinds = rng.sample(['random', 'badcheck', 'truncated', 'foreign', 'delims', 'undecodable'], rng.randint(1, 3))
     garbage = []
     total = 0
     for _ in range(rng.randint(1, 5)):
@@ -69,7 +77,10 @@ def generate(rng, tier, index):
     per_read = rng.choice([1, 1, 2, 3])
     return {'property': ID, 'harness': 'rx', 'framing': framing, 'decoder': decoder, 'garbage': garbage,
             'garbage_split': rng.choice(['as_is', 'as_is', 'one_read', 'bytewise']),
-            'valid': valid, 'per_read': per_read, 'units': [17]}
+            'valid': valid, 'per_read': per_read, 'units': [17],
+            # what the receiving loop does when the receive call raises: 'reset' = resetFrame() and carry on (the
+            # sync serial handler), 'keep' = nothing (Twisted protocols, direct users of the framer)
+            'policy': rng.choice(['reset', 'keep'])}
 
 
 def execute(scn):
@@ -95,7 +106,7 @@ def execute(scn):
         chunks.append(b''.join(grp))
     chunks.append(b'')
     res = rx.run({'framing': framing, 'decoder': scn['decoder'], 'chunks': [c.hex() for c in chunks],
-                  'units': scn.get('units'), 'single': False, 'on_exception': 'reset'})
+                  'units': scn.get('units'), 'single': False, 'on_exception': scn.get('policy', 'reset')})
     B = BOUND[framing]
     kinds = sorted(set(g['kind'] for g in scn['garbage']))
     out = {'violations': [], 'inconclusive': False, 'nontrivial': g_end > 0, 'digest': res.digest, 'shape': res.digest,
@@ -115,7 +126,7 @@ def execute(scn):
     got_pdus = [d['pdu'] for d in got]
     extra_lead = len([i for i in range(len(frames)) if chunk_of[i] == first_chunk and i < obliged[0]])
     sig_base = {'property': ID, 'framing': framing, 'decoder': scn['decoder'], 'garbage': '+'.join(kinds),
-                'per_read': pr}
+                'per_read': pr, 'policy': scn.get('policy', 'reset')}
     ok = False
     for skip in range(extra_lead + 1):
         if got_pdus[skip:] == want:
